@@ -130,3 +130,48 @@ pub mod label;
 
 /// Random Vector OLE (base OT variant)
 pub mod rvole_ot_variant;
+
+/// Verification hooks (add-only, compiled only with `--cfg sl_crypto_verif`).
+#[cfg(sl_crypto_verif)]
+pub mod verif_hooks {
+    pub use crate::soft_spoken::verif_gf128_mul;
+    use crate::endemic_ot::{
+        OneTimePadEncryptionKeys, ReceiverOutput, SenderOutput,
+    };
+    use crate::params::consts::*;
+
+    /// Build a base-OT sender output from raw key pairs.
+    pub fn sender_output_from_keys(
+        keys: &[[[u8; LAMBDA_C_BYTES]; 2]; LAMBDA_C],
+    ) -> SenderOutput {
+        SenderOutput {
+            otp_enc_keys: std::array::from_fn(|i| {
+                OneTimePadEncryptionKeys {
+                    rho_0: keys[i][0],
+                    rho_1: keys[i][1],
+                }
+            }),
+        }
+    }
+
+    /// Read the key pairs of a base-OT sender output.
+    pub fn sender_output_keys(
+        out: &SenderOutput,
+    ) -> Vec<[[u8; LAMBDA_C_BYTES]; 2]> {
+        out.otp_enc_keys.iter().map(|k| [k.rho_0, k.rho_1]).collect()
+    }
+
+    /// Read choice bits and keys of a base-OT receiver output.
+    pub fn receiver_output_parts(
+        out: &ReceiverOutput,
+    ) -> ([u8; LAMBDA_C_BYTES], Vec<[u8; LAMBDA_C_BYTES]>) {
+        (out.choice_bits, out.otp_dec_keys.to_vec())
+    }
+
+    /// Read the packed choice bits of a base-OT receiver state.
+    pub fn receiver_choice_bits(
+        r: &crate::endemic_ot::EndemicOTReceiver,
+    ) -> [u8; LAMBDA_C_BYTES] {
+        r.packed_choice_bits
+    }
+}
